@@ -7,6 +7,7 @@ import IbicusModel.Lemmas.GenIsimipSteps2
 import IbicusModel.Lemmas.GroupMax
 import IbicusModel.Lemmas.GenDebWinSdm
 import IbicusModel.Lemmas.GenIsimipStep6
+import IbicusModel.Props.Capstone3
 -- property theorems
 #print axioms Props.C10.step5_bounded_in_range
 #print axioms Props.C10.step5_in_range
@@ -141,3 +142,27 @@ import IbicusModel.Lemmas.GenIsimipStep6
 #print axioms Lemmas.GenIsimipStep6.step4_eq
 #print axioms Lemmas.GenIsimipStep6.step5_eq
 #print axioms Lemmas.GenIsimipStep6.apply_on_window_eq
+-- capstone 3: C10 stated on the denotation of the regenerated per-window pieces (`Props/Capstone3.lean`)
+#print axioms Props.Capstone3.regenWindowProg_denote
+#print axioms Props.Capstone3.regenWindow_LS_additive
+#print axioms Props.Capstone3.regenWindow_LS_multiplicative
+#print axioms Props.Capstone3.regenWindow_DC_additive
+#print axioms Props.Capstone3.regenWindow_DC_multiplicative
+#print axioms Props.Capstone3.regenWindow_SDM_relative_eq_model
+#print axioms Props.Capstone3.regenWindow_CDFt_eq_model
+#print axioms Props.Capstone3.regenWindow_CDFt_eq_model_nossr
+#print axioms Props.Capstone3.regenWindow_QDM_eq_model
+#print axioms Props.Capstone3.regenStep6_eq_model
+#print axioms Props.Capstone3.regenWindow_ISIMIP_eq_model
+#print axioms Props.Capstone3.regenWindow_LS_mult_nonneg
+#print axioms Props.Capstone3.regenWindow_DC_mult_nonneg
+#print axioms Props.Capstone3.regenWindow_SDM_relative_nonneg
+#print axioms Props.Capstone3.regenWindow_SDM_relative_raises
+#print axioms Props.Capstone3.regenWindow_CDFt_ssr_zero_or_ge
+#print axioms Props.Capstone3.regenWindow_CDFt_ssr_nonneg
+#print axioms Props.Capstone3.regenWindow_QDM_zero_or_ge
+#print axioms Props.Capstone3.regenWindow_QDM_relative_nonneg
+#print axioms Props.Capstone3.regenStep6_in_bounds
+#print axioms Props.Capstone3.regenStep6_no_gap
+#print axioms Props.Capstone3.regenStep6_pr_zero_or_ge
+#print axioms Props.Capstone3.regenWindow_ISIMIP_in_bounds_no_gap
